@@ -410,6 +410,14 @@ impl<T> DataReaderEntity<T> {
         // data_reader exclusive access if the writer is not the allowed to write the sample do an early return
         if self.qos.ownership.kind == OwnershipQosPolicyKind::Exclusive {
             // Get the InstanceHandle of the data writer owning this instance
+            // An owner that is no longer matched (e.g. deleted) does not own the instance anymore
+            self.instance_ownership.retain(|x| {
+                x.instance_handle != sample.instance_handle
+                    || self
+                        .matched_publication_list
+                        .iter()
+                        .any(|p| p.key().value == x.owner_handle.as_ref())
+            });
             if let Some(instance_owner) = self
                 .instance_ownership
                 .iter()
